@@ -102,7 +102,8 @@ def backing_desc(rng, top, shorter=None):
     for gc in range(n):
         if rng.random() < 0.7:
             clusters[gc] = ('data', cluster_bytes(rng, cs, rng.choice(['blocks', 'pattern'])))
-    size = n * cs
+    # the backing image may end inside a cluster (zeros beyond its end, also inside the straddling cluster)
+    size = n * cs - (rng.choice([0, 0, 512, cs // 2, cs - 512]) if cs > 512 and n > 1 else 0)
     return qimg.ImageDesc(version=3, cluster_bits=cb, refcount_order=4, size=size, clusters=clusters)
 
 
